@@ -11,7 +11,7 @@
    that premise is what the harness monitor checks on every upload: it holds whenever one instance
    is live at a time (crashes and restarts: C01's own quantifier) and fails in the known finding
    under C06 (two live instances; Properties/C06.v, C06_published_rollback_refuted). *)
-From SL Require Import Ctlog.Model Ctlog.Spec Ctlog.Theorems Ctlog.PubMono Ctlog.Example.
+From SL Require Import Ctlog.Model Ctlog.Spec Ctlog.Theorems Ctlog.PubMono Ctlog.Solo Ctlog.Example.
 
 Theorem C01_lock_history_append_only : forall (sha : bytes -> bytes) (evs : list ev),
   append_only sha (w_lockhist (run sha evs init)).
@@ -35,6 +35,18 @@ Theorem C01_published_history_append_only : forall (sha : bytes -> bytes) (evs :
                  cp_root c = mroot sha (leaf_hashes sha (firstn (N.to_nat (cp_size c)) ls')))%N.
 Proof. exact published_history_append_only. Qed.
 Print Assumptions C01_published_history_append_only.
+
+(* C01's own quantifier — submissions, rounds, faults, crashes and restarts, clocks — has at most one
+   live instance at a time ([solo_run]: in every state along the run at most one instance is
+   neither unstarted, crashed nor stopped). Then the premise holds, and with it the clause. *)
+Theorem C01_one_live_instance_uploads_current : forall (sha : bytes -> bytes) (evs : list ev),
+  solo_run sha evs init -> uploads_current (run sha evs init).
+Proof. exact solo_run_uploads_current. Qed.
+Print Assumptions C01_one_live_instance_uploads_current.
+
+(* non-vacuity: the example history (a crash, then a second instance) has one live instance at a time *)
+Example C01_example_solo : solo_run toy_sha history1 init.
+Proof. apply solo_run_b_sound. vm_compute. reflexivity. Qed.
 
 (* non-vacuity of the premise: in the example history every upload was current *)
 Example C01_example_uploads_current : uploads_current world1.
